@@ -80,6 +80,23 @@ int main(int argc, char **argv) {
             if (!got) break;
             vh_seg++; vh_step = 0;
             mark = vh_ledger_mark();
+            if (inj_at || inj_from) {
+                for (long ck = 1; ck <= 16; ck++) {
+                    long m0 = vh_ledger_mark();
+                    vh_where = "ctor";
+                    vh_call_begin();
+                    if (inj_at) vh_fail_at = ck; else vh_fail_from = ck;
+                    void *X = NULL;
+                    if (K == 0) { qlist_t *x = qlist(ts ? QLIST_THREADSAFE : 0); X = x; if (x) x->free(x); }
+                    else if (K == 1) { qqueue_t *x = qqueue(ts ? QQUEUE_THREADSAFE : 0); X = x; if (x) x->free(x); }
+                    else if (K == 2) { qstack_t *x = qstack(ts ? QSTACK_THREADSAFE : 0); X = x; if (x) x->free(x); }
+                    else { qgrow_t *x = qgrow(ts ? QGROW_THREADSAFE : 0); X = x; if (x) x->free(x); }
+                    long nf = vh_failed;
+                    vh_call_end();
+                    vh_emit("{\"op\":\"ctor\",\"i\":0,\"v\":0,\"inj\":%ld,\"nfail\":%ld,\"ok\":%s,\"live\":%ld}", ck, nf, vh_bool(X != NULL), vh_live_since(m0));
+                    if (nf == 0) break;
+                }
+            }
             if (K == 0) L = qlist(ts ? QLIST_THREADSAFE : 0);
             else if (K == 1) { Q = qqueue(ts ? QQUEUE_THREADSAFE : 0); L = Q ? Q->list : NULL; }
             else if (K == 2) { S = qstack(ts ? QSTACK_THREADSAFE : 0); L = S ? S->list : NULL; }
@@ -101,6 +118,7 @@ int main(int argc, char **argv) {
         vh_where = op;
         int inject = (inj_at || inj_from) && is_alloc_op(op);
         for (long k = 1;; k++) {
+            if (inject && k > 300) inject = 0;      /* give up injecting: finish the operation normally */
             unsigned char *arg = NULL;
             if (v >= 1 && v <= NV) { arg = vh_malloc(VS[v] + 1); memcpy(arg, VB[v], VS[v]); }
             size_t asz = v ? VS[v] : 0;
@@ -174,7 +192,7 @@ int main(int argc, char **argv) {
                 } else if (f && f->size == 8 && (vh_step & 1)) {
                     int64_t x = K == 1 ? (pop ? Q->popint(Q) : Q->getint(Q)) : (pop ? S->popint(S) : S->getint(S));
                     /* the int front-ends cannot report failure: under injection treat 0 with a failed allocation as failure */
-                    if (!(vh_failed > 0 && x == 0)) { p = malloc(8); if (p) memcpy(p, &x, 8); sz = 8; }
+                    if (!(vh_failed > 0 && x == 0)) { p = vh_malloc(8); memcpy(p, &x, 8); sz = 8; }
                 } else {
                     p = K == 1 ? (pop ? Q->pop(Q, &sz) : Q->get(Q, &sz, true)) : (pop ? S->pop(S, &sz) : S->get(S, &sz, true));
                 }
@@ -200,7 +218,7 @@ int main(int argc, char **argv) {
             vh_bprintf(&b, "],\"max\":%zu,\"num\":%zu,\"dsum\":%zu,\"lkd\":%ld,\"ovl\":%ld,\"bf\":%ld}", L->max, L->num, L->datasum,
                        (vh_locks - vh_unlocks) - lkb, vh_overlap_copies - ovb, vh_badfree - bfb);
             vh_bflush(&b);
-            if (!inject || nfail == 0 || ok || k > 64) break;
+            if (!inject || nfail == 0 || ok ) break;
         }
     }
     vh_close();
